@@ -145,12 +145,20 @@ func qtObserve(q *quadtree.Quadtree, e *qtEv, qs *qtQueries, bufs bool) {
 	})
 	// distance limits are handed over as slices that live for the whole observation (limits...): a query must not
 	// write to its caller's slice
+	// md > 0: that distance; md = 0: no limit given; md = -1: a limit of exactly zero (negative limits are not a meaningful input: the code squares them)
+	limVal := func(md int) float64 {
+		switch md {
+		case -1:
+			return 0
+		}
+		return qs.m.dist(md)
+	}
 	lims := map[int][]float64{}
 	lim := func(md int) []float64 {
 		if l, ok := lims[md]; ok {
 			return l
 		}
-		lims[md] = []float64{qs.m.dist(md)}
+		lims[md] = []float64{limVal(md)}
 		return lims[md]
 	}
 	// a result belongs to the caller: it must still hold what it held when it was returned once all the other queries
@@ -210,7 +218,7 @@ func qtObserve(q *quadtree.Quadtree, e *qtEv, qs *qtQueries, bufs bool) {
 				for _, md := range qs.mds {
 					var buf []orb.Pointer
 					if bufs { // caller-supplied result buffers of various capacities
-						buf = make([]orb.Pointer, 0, (k+md)%4)
+						buf = make([]orb.Pointer, 0, ((k+md)%4+4)%4)
 					}
 					var res []orb.Pointer
 					switch {
@@ -227,9 +235,9 @@ func qtObserve(q *quadtree.Quadtree, e *qtEv, qs *qtQueries, bufs bool) {
 					for _, x := range res {
 						row = append(row, qtID(x))
 					}
-					if md != 0 && lim(md)[0] != qs.m.dist(md) {
+					if md != 0 && lim(md)[0] != limVal(md) {
 						row = append(row, -2) // the caller's limit slice was written to
-						lim(md)[0] = qs.m.dist(md)
+						lim(md)[0] = limVal(md)
 					}
 					wipe(res)
 					e.KNN = append(e.KNN, row)
@@ -495,7 +503,21 @@ func init() {
 				setCurrent("quadtree."+op, alphabet)
 				e, site := qtApply(q, ptrs, &next, bnd, op, p, id, m)
 				if site == "" {
+					ks0, mds0 := qs.ks, qs.mds
+					if (m == nil || !m.ranked) && i%23 == 0 {
+						// sizes: k around the number of stored pointers and around round numbers, a k followed by k+1 (whatever
+						// a search keeps for later must fit the next one too); a limit of exactly zero: nothing lies
+						// strictly within it, not even a pointer stored on the query point
+						qs.ks = [][]int{{15, 16, 17}, {20, 21, 8, 9}, {len(e.Items) - 1, len(e.Items), len(e.Items) + 1}, {32, 33, 1}}[(i/23)%4]
+						qs.mds = []int{0, -1, 300}
+						for j, k := range qs.ks {
+							if k < 1 {
+								qs.ks[j] = 1
+							}
+						}
+					}
 					site = guard(func() { qtObserve(q, &e, qs, i%2 == 1) })
+					qs.ks, qs.mds = ks0, mds0
 				}
 				if site != "" {
 					c.emitTo(shard, panicEvent("quadtree."+op, site, alphabet))
